@@ -33,6 +33,12 @@ def agree_on_bytes(run, key, rp, data, delimited, arbiter=None):
         return n
     gflat = [rdf_norm(x) for x in res[("generic", "flat")]]
     rflat = [rdf_norm(x) for x in res[("rdflib", "flat")]]
+    # the two integrations are compared EXACTLY (an explicit xsd:string datatype is a datatype both must report); only the comparison with the
+    # Tier-1 denotation identifies "x"^^xsd:string with the plain literal
+    gx, rx = [tuple(x) for x in res[("generic", "flat")]], [tuple(x) for x in res[("rdflib", "flat")]]
+    if gflat == rflat and gx != rx:
+        k = next((i for i, (a, b) in enumerate(zip(gx, rx)) if a != b), 0)
+        run.violation({"clause": "integrations-differ-in-datatype", **key}, f"item {k}: generic {gx[k]!r} vs rdflib {rx[k]!r}", rp)
     if gflat != rflat:
         k = next((i for i, (a, b) in enumerate(zip(gflat, rflat)) if a != b), min(len(gflat), len(rflat)))
         hint = ""
